@@ -92,6 +92,11 @@ func (fx *Fx) evalArgs(st *State, call *ast.CallExpr, sig *types.Signature) []Va
 		} else if i < np {
 			pt = sig.Params().At(i).Type()
 		}
+		// a pointer into a field declared guarded_by is handed to the callee: the callee's accesses through it happen
+		// during the call, so the lock must be held (at least for reading) at the call
+		if il, ok := fx.c.interior[v.T]; ok && il.kind == locHeap && fx.w.guardOf(il.key) != "" && fx.w.atomicClass(il.key) == "" {
+			fx.guardCheck(st, il, false)
+		}
 		args = append(args, fx.convertTo(st, v, pt))
 	}
 	if sig.Variadic() && !call.Ellipsis.IsValid() {
@@ -896,7 +901,13 @@ func (fx *Fx) applyCall(st *State, fn *types.Func, recv *Val, args []Val, call *
 	}
 	for _, e := range sp.Ensures {
 		env := &SpecEnv{fx: fx, st: st, old: pre, bound: bound, pos: specPos, pkg: calleePkg}
-		st.assume(fx.specBool(env, e.Expr))
+		for _, cj := range splitConj(e.Expr) {
+			// ndirect counts the direct calls of the callee's own activation: it says nothing about the caller's counters
+			if sexprMentions(cj, "ndirect") || sexprMentions(cj, "ndirectTrue") {
+				continue
+			}
+			st.assume(fx.specBool(env, cj))
+		}
 	}
 	if sp.Flags["countcalls"] != "" {
 		// per-activation ghost counter of the direct calls of this callee
